@@ -29,8 +29,8 @@ def events (sched : List String) (data : Bytes) : List ReadEvent :=
       match sched with
       | [] => if data.isEmpty then [.eof] else [.data data, .eof]
       | "i" :: rest => .interrupted :: go fuel rest data
-      | "e" :: _ => [.error]
       | n :: rest =>
+        if n.startsWith "e" then [.error] else
         let k := Nat.max 1 (n.toNat?.getD 0)
         if data.isEmpty then [.eof] else .data (data.take k) :: go fuel rest (data.drop k)
   go (sched.length + data.length + 2) sched data
